@@ -91,6 +91,10 @@ def run_core(prop, tier, seed, t0, cfgname='TraceCore.cfg'):
     for name, nq, nt in spec['profiles']:
         segs += gen_scripts.gen(name, nq if tier == 'quick' else nt, seed)
     segs += fixed_segments(prop)
+    td_mc = None
+    if prop == 'C14':
+        td, td_mc = teardown_segments(tier, seed)
+        segs += td
     by_id = {sid: ops for sid, ops in segs}
     res = lib.conformance(segs, work, cfgname)
     errors = [r['error'] for r in res if 'error' in r]
@@ -171,6 +175,10 @@ def run_core(prop, tier, seed, t0, cfgname='TraceCore.cfg'):
                     % [p[0] for p in spec['profiles']],
                samples=samples, model_checking=mc.get('summary', {}), exhaustive=False,
                sanitizers='ASan+UBSan+LSan, TROMPELOEIL_SANITY_CHECKS', tree=lib.tree_hash())
+    if td_mc:
+        cov['teardown_orders_generated_by_TLC'] = td_mc
+        cov['states'] = cov.get('states', 0) + sum(x['distinct'] for x in td_mc)
+        cov['transitions'] = cov.get('transitions', 0) + sum(x['generated'] for x in td_mc)
     if not mc.get('distinct'):
         cov.pop('states'); cov.pop('transitions')
     lib.write_evidence(prop, tier, seed, 'model_checking', cov, time.time() - t0, nviol, ASSUMPTIONS_CORE)
@@ -178,6 +186,40 @@ def run_core(prop, tier, seed, t0, cfgname='TraceCore.cfg'):
     log('%s %s: %d segments, %d events, %d non-trivial, %d violations, mc=%s, %.0fs' % (
         prop, tier, len(segs), events, len(nontriv), nviol, mc.get('summary'), time.time() - t0))
     return 1 if nviol else 0
+
+def teardown_segments(tier, seed):
+    """C14, spec -> code: every order of the destroy / move ops of MCTeardown's populations, generated by TLC"""
+    import re, random
+    out = []
+    mc = []
+    spec_hash = lib.sha_files([os.path.join(lib.SPEC, f) for f in ('MCTeardown.tla', 'Core.tla', 'Shapes.tla')])
+    for pop in (1, 2, 3):
+        cache = os.path.join(lib.BUILD, 'teardown-%s-P%d.json' % (spec_hash, pop))
+        if not os.path.exists(cache):
+            work = os.path.join(lib.BUILD, 'work-teardown-%d-%d' % (pop, os.getpid()))
+            os.makedirs(work, exist_ok=True)
+            rc, o = lib.tlc('MCTeardown.tla', 'MCTeardown_%d.cfg' % pop, work, workers=1, timeout=1500, java_opts='-Xmx8g')
+            shutil.rmtree(work, ignore_errors=True)
+            if rc != 0 or 'No error has been found' not in o:
+                raise RuntimeError('TLC on MCTeardown population %d failed rc=%d: %s' % (pop, rc, o[-1500:]))
+            scripts = []
+            for line in o.splitlines():
+                m = re.match(r'<<"SCRIPT", "(.*)">>$', line.strip())
+                if m:
+                    evs = json.loads(m.group(1).replace('\\"', '"'))
+                    scripts.append([e['e'] + ' ' + ' '.join(str(x) for x in e['a']) for e in evs])
+            json.dump(dict(scripts=scripts, stats=lib.tlc_stats(o)), open(cache, 'w'))
+        d = json.load(open(cache))
+        mc.append(dict(population=pop, behaviours=len(d['scripts']), **d['stats']))
+        scripts = d['scripts']
+        if tier == 'quick':
+            rnd = random.Random(seed * 31 + pop)
+            keep = 600 if pop != 3 else 800
+            if len(scripts) > keep:
+                scripts = rnd.sample(scripts, keep)
+        for i, ops in enumerate(scripts):
+            out.append(('td-P%d-%d' % (pop, i), ops))
+    return out, mc
 
 def fixed_segments(prop):
     """fixed witness scripts: harness/witness/<prop>*.script"""
